@@ -64,6 +64,7 @@ type sim struct {
 	api       *apiModel
 	cloud     *cloudModel
 	faultsOn  bool
+	long      bool // thorough tier only: a long run (see newSim)
 	lastFault time.Time
 	inc       *incarnation
 	nInc      int
